@@ -241,4 +241,27 @@ PROPS = {
                        "the receiver's byte sequence equals the sender's and is followed by end of stream after shutdown; submitted buffers come back identical; nothing is left pending; no ring leaks."),
         "level_note": "Stream half of C14. Datagram sockets (truncation, source address, MSG_TRUNC flag) and accept-exactly-once are not exercised by this check yet. The simulated kernel's fidelity is checked by running compio's own 217 tests on it (tools/fidelity.sh): all pass.",
     },
+    "C09": {
+        "title": "Timers never fire early and always fire",
+        "engine": "K",
+        "package": "check-k",
+        "bin": "check-k",
+        "design_ref": "§4, §7 C09",
+        "technique": "deterministic simulation with a discrete-event clock: the real compio runtime timer wheel and driver on the simulated io_uring kernel; clock_gettime is interposed, an idle io_uring_enter jumps simulated time to the nearest deadline it was given; generated sets of sleeps, past deadlines, timeouts around sleeps, dropped sleeps, intervals and I/O, with kernel faults (early EINTR returns, lazy completions, tiny rings); earliness, lateness, timeout-side, drift and leftover-timer oracles; choice-sequence minimisation and replay",
+        "tiers": {
+            "quick": {"runs": 1_600_000, "time_limit_s": 60},
+            "thorough": {"runs": 200_000_000, "time_limit_s": 1500},
+        },
+        "rule": K_RULE,
+        "real": K_REAL,
+        "stub": K_STUB,
+        "assumptions": K_ASSUME + [
+            "time advances only by 1 µs per io_uring_enter and by jumps to the deadline passed to a waiting enter; a completion observed more than 200 µs after its deadline counts as late (the loop needs a few enters to notice and poll)",
+            "timeout(): when inner and outer deadlines are within the slack of each other either side is accepted",
+        ],
+        "level_text": ("Seeded exploration of deadline sets (0, 1 ns, sub-µs, µs, ms, equal and ±1 ns, seconds, hours), creation/drop orders and interleavings with I/O and kernel faults: no timer completes before its deadline on the simulated clock, "
+                       "every timer completes within the slack after it (an idle runtime that sleeps past the nearest deadline shows up as lateness), timeout() returns the side that finished first, interval ticks stay on start + k * period, "
+                       "and after the last timer nothing is left in the wheel (Runtime::current_timeout() is None)."),
+        "level_note": "Hours of simulated time cost microseconds. Trusts the interposed clock (std::time::Instant follows it) and the slack constant.",
+    },
 }
